@@ -15,4 +15,19 @@ CHECKS = {
         "min_evals": 1000,
         "assumptions": ["pure functions of db/sequence_id.go driven in-package", ROSMAR],
     },
+    "C07": {
+        "level": "exploration",
+        "rule": "cases = (scripts for 1..3 real sequenceAllocators sharing one counter, batch growth on/off, schedule of their storage steps); systematic part enumerates schedules depth-first under a preemption bound, random part draws scripts+schedules from the seed; distinct_nontrivial = distinct (scripts, schedule fingerprint) with >= 2 context switches between allocators or >= 1 unused-sequence publication",
+        "parts": [
+            {"name": "alloc-systematic", "pkg": "db", "run": "^TestVerif_C07_AllocSystematic$", "timeout_q": 400, "timeout_t": 2400},
+            {"name": "alloc-random", "pkg": "db", "run": "^TestVerif_C07_AllocRandom$", "timeout_q": 400, "timeout_t": 2400},
+            {"name": "alloc-race", "pkg": "db", "race": True, "run": "^TestVerif_C07_AllocRace$", "timeout_q": 400, "timeout_t": 2400},
+            {"name": "db", "pkg": "db", "race": True, "run": "^TestVerif_C07_DB$", "timeout_q": 500, "timeout_t": 3000},
+            {"name": "retry-chain", "pkg": "db", "run": "^TestVerif_C07_RetryChain$", "timeout_q": 400, "timeout_t": 1200},
+        ],
+        "min_evals": 50,
+        "race_files": ["db/sequence_allocator.go"],
+        "race_state": ["s.last", "s.max", "s.sequenceBatchSize", "sequence =", "s.terminator"],
+        "assumptions": ["idle release is invoked explicitly (timer set to 1h) in the scheduled parts; the real timer runs in the race part", "storage faults are injected only on the counter increment: a failed unused-sequence publication is documented to fall back to skipped-sequence handling", ROSMAR],
+    },
 }
